@@ -557,6 +557,10 @@ func (e *codecEnv) oracleSlab(s atree.Slab) ([]byte, string) {
 	if err != nil {
 		e.violation("C07", fmt.Sprintf("extra data sections of slab %s do not re-parse: %v", hx.IDStr(id), err))
 	}
+	if bad := hx.SharedSectionCanonical(reg); bad != "" {
+		// C07 "canonical": an encoder that stops deduplicating still round-trips (regcheck.go)
+		e.violation("C07", fmt.Sprintf("the shared extra-data section of slab %s is not canonical: %s: %s", hx.IDStr(id), bad, hex.EncodeToString(reg)))
+	}
 	if (extra != 0) != isRoot {
 		e.violation("C07", fmt.Sprintf("slab %s: root %v but extra data section of %d bytes", hx.IDStr(id), isRoot, extra))
 	}
@@ -1479,6 +1483,7 @@ func malformedStream(cfg *Config) *hx.Stats {
 		// whatever the decoder accepts must survive re-encoding without panicking
 		if o.class == "ok" {
 			e.reencodeAccepted(id, data, o)
+			e.childAddressOracle(id, data, o)
 		}
 		return o.class
 	}
